@@ -96,6 +96,12 @@ INCLUDES = {
     "outsideviasymlink": ("include('link.cond')\nrun_command(name='t', run='true')\n", {"../outside.cond": "CMD = 'true'\n",
                                                                                       "link.cond": ("symlink", "../outside.cond")}),
     "definestask": ("include('vals.cond')\nrun_command(name='t', run='true')\n", {"vals.cond": "run_command(name='z', run='true')\n"}),
+    # ... through every constructor and through the standard-library macro (which defines tasks itself)
+    "definestask_exp": ("include('vals.cond')\nrun_command(name='t', run='true')\n", {"vals.cond": "run_experiment(name='z', run='true')\n"}),
+    "definestask_group": ("include('vals.cond')\nrun_command(name='t', run='true')\n", {"vals.cond": "group(name='z')\n"}),
+    "definestask_combine": ("include('vals.cond')\nrun_command(name='t', run='true')\n", {"vals.cond": "combine(name='z')\n"}),
+    "definestask_macro": ("include('vals.cond')\nrun_command(name='t', run='true')\n",
+                          {"vals.cond": "run_experiment_group(name='z', run='true', experiments=[ExperimentInstance(name='z1')])\n"}),
     "includes": ("include('vals.cond')\nrun_command(name='t', run='true')\n", {"vals.cond": "include('more.cond')\n",
                                                                              "more.cond": "X = 1\n"}),
     "raises": ("include('vals.cond')\nrun_command(name='t', run='true')\n", {"vals.cond": "raise ValueError('boom')\n"}),
